@@ -407,7 +407,11 @@ class IMAPConnection:
                             response.add_untagged(ResponseBye(msg))
                     else:
                         bad_commands = 0
-                    await self.write_response(response)
+                    try:
+                        await self.write_response(response)
+                    except Exception:
+                        await self.send_error_disconnect()
+                        raise
                     if response.is_terminal:
                         break
                     if isinstance(cmd, StartTLSCommand) \
